@@ -202,6 +202,65 @@ def db_case(sh, s, d, case):
             trace.append('%s:%s' % (which, 'resolved' if is_conflict else 'first'))
         for c in conns:
             c.close()
+    if kind in ('file', 'demo-file') and rnd.random() < 0.6:
+        # a stale writer whose conflict is with an *undo*: the committed record is the data-less record the undo wrote
+        form = rnd.choice(['undo-of-change', 'undo-of-change', 'undo-of-creation'])
+        tma, tmw = transaction.TransactionManager(), transaction.TransactionManager()
+        ca, cw = db.open(tma), db.open(tmw)
+        tma.begin()
+        if form == 'undo-of-creation':
+            ca.root()['fresh'] = objs.Counter()
+            ca.root()['fresh'].value = 5
+            name = 'fresh'
+        else:
+            ca.root()['counter'].value += rnd.randrange(1, 50)
+            name = 'counter'
+        tma.get().note('to be undone %d' % s)
+        tma.commit()
+        tmw.begin()
+        ow = cw.root()[name]
+        start_v = ow.value
+        uid_ = [x['id'] for x in db.undoInfo(0, 3) if str(x['description']).startswith('to be undone')][0]
+        tma.begin()
+        db.undo(uid_, tma.get())
+        tma.commit()
+        tma.begin()
+        committed_v = ca.root()['counter'].value if form == 'undo-of-change' else None
+        tma.abort()
+        delta = rnd.randrange(1, 50)
+        ow.value += delta
+        del objs.RESOLVER_LOG[:]
+        before = observe(st, full=False, undolog=False)
+        try:
+            tmw.commit()
+            ok = True
+        except ConflictError:
+            ok = False
+            tmw.abort()
+        wit = {'kind': kind, 'form': form, 'trace': trace}
+        sh.count('conflicts_with_an_undo_record')
+        if form == 'undo-of-creation':
+            if ok or first_diff(observe(st, full=False, undolog=False), before):
+                sh.violation('c10:%s:write-to-an-object-whose-creation-was-undone-%s' % (kind, 'accepted' if ok else 'changed-the-storage'), wit, case)
+                return None
+        else:
+            log = [(lo['value'], lc['value'], ln['value']) for (_, lo, lc, ln) in objs.RESOLVER_LOG]
+            want = (start_v, committed_v, start_v + delta)
+            if not ok:
+                sh.violation('c10:%s:resolvable-conflict-refused' % kind, dict(wit, want=want), case)
+                return None
+            if log != [want]:
+                sh.violation('c10:%s:resolver-arguments-differ-from-model:conflict-with-an-undo-record' % kind, dict(wit, got=log, model=[want]), case)
+                return None
+            data, serial = st.load(ow._p_oid)
+            if objs.decode_record(data)[1].get('value') != committed_v + delta:
+                sh.violation('c10:%s:stored-state-differs-from-class-merge' % kind,
+                             dict(wit, stored=objs.decode_record(data)[1].get('value'), model=committed_v + delta, undo_record=True), case)
+                return None
+            resolved += 1
+        trace.append('conflict-with-%s' % form)
+        ca.close()
+        cw.close()
     db.close()
     sh.note('storage_kinds', kind)
     return (digest('db', kind, trace, s) if nontrivial else None, {'seed': s, 'kind': kind, 'trace': trace})
